@@ -13,6 +13,17 @@ from ..kern.expr import Expr, fresh, equal_modulo_order, sym
 from ..kern import expr as X
 from ..kern.interp import Interp, Undecided, Num, Arr, Struct, Tup, Opt, Cond, Opaque, num_const, num_size
 from ..kern import world, models
+from .. import idroles
+
+
+def role_hooks(ctx):
+    """Hooks for the abstract subgraph id (by role, not by name)."""
+    idr = idroles.id_roles(ctx)
+    try:
+        gr = idroles.graph_roles(ctx)
+    except RoleLost:
+        gr = {}
+    return world.id_hooks(idr, gr.get("full_id"))
 
 D, L, DOD = sym("D"), sym("L"), sym("dod")
 
@@ -115,6 +126,10 @@ class SampleWorld:
             if (self.f.ty(fi.get("impl_self") or "") or {}).get("path") == rd_adt and b is not roles["read"] and b is not roles["reader_ctor"]:
                 hooks[b.path] = (lambda nm: (lambda I, c, a: num_const(0) if nm.endswith("zero") else num_const(1)))(b.path)
         hooks.update(vector_spec_hooks(self.f))
+        try:
+            hooks.update(role_hooks(ctx))
+        except RoleLost:
+            pass
         I = Interp(self.f, models=hooks)
         self.I = I
         s = roles and ctx.roles.sample()
@@ -272,6 +287,8 @@ def comp(vec, c):
 def guarded_clause(ctx, rule, fn, construct, thunk):
     try:
         thunk()
+    except RoleLost as e:
+        ctx.lost(rule, str(e), fn)
     except Undecided as u:
         ctx.ob(rule, "kernel summarised", False, fn, "kernel-undecided:" + construct,
                detail="kernel-undecided: %s (a construct outside the summarisation model lies on the path to a compared output)" % u.what)
@@ -1032,10 +1049,7 @@ def dimension_formula(ctx):
         if isinstance(edges, Arr) and edges.classes == ("E",) and edges.name in ("range", "map"):
             return num_size("L")
         return Num(Expr.atom(("call", "loops", "?")))
-    hooks = {}
-    for key, b in ctx.facts.mir.items():
-        if (ctx.facts.fns.get(b.path) or {}).get("name") == "get_loop_number":
-            hooks[b.path] = loops_hook
+    hooks = {idroles.graph_roles(ctx)["loopnum"].path: loops_hook}
     I = Interp(ctx.facts, models=hooks)
     res = I.run_fn(dimfn.path, [world.table()])
     return dimfn, scalar_of(res, "dimension")
@@ -1053,13 +1067,14 @@ def run_c06d(ctx):
     f = ctx.facts
 
     def body():
-        I = Interp(f)
+        I = Interp(f, models=role_hooks(ctx))
+        idty = f.adts[idroles.id_roles(ctx)["adt"]]["self_ty"]
         args = []
         for l in scan.locals[1:scan.arg_count + 1]:
             ty = l["ty"]
             if "TropicalSubgraphTable" in ty:
                 args.append(world.table())
-            elif "TropicalSubGraphId" in ty:
+            elif idty in ty:
                 args.append(world.GraphIdVal("g"))
             else:
                 args.append(Num(Expr.symbol("uniform")))
@@ -1096,16 +1111,21 @@ def run_c14h(ctx):
                       "the λ read and 2 per Gaussian pair the total is 2E−1+DL+(DL mod 2) = get_dimension() (C14-g)")
     f = ctx.facts
 
+    try:
+        idr = idroles.id_roles(ctx)
+        gr = idroles.graph_roles(ctx)
+    except RoleLost as e:
+        return ctx.lost("C14-h", str(e))
+
     def meth(name):
-        bs = [x for x in f.mir.values() if (f.fns.get(x.path) or {}).get("name") == name and "TropicalSubGraphId" in ((f.fns.get(x.path) or {}).get("impl_self") or "")
-              and not (f.fns.get(x.path) or {}).get("impl_trait")]
-        if len(bs) != 1:
-            raise Undecided("TropicalSubGraphId::%s (found %d)" % (name, len(bs)))
-        ctx.fn(bs[0].path)
-        return bs[0]
+        if name not in idr:
+            raise Undecided("subgraph-id method playing the role `%s`" % name)
+        ctx.fn(idr[name].path)
+        return idr[name]
 
     G = Expr.symbol("g")
-    me = Struct("TropicalSubGraphId", {"id": Num(G), "num_edges": num_size("E")})
+    MF, EF = idr["mask_field"], idr["extent_field"]
+    me = Struct("TropicalSubGraphId", {MF: Num(G), EF: num_size("E")})
     one = Expr.const(1)
 
     def body():
@@ -1113,8 +1133,8 @@ def run_c14h(ctx):
         i_ = Num(Expr.leaf("$ix", "i"), ent="i")
         r = Interp(f).run_fn(meth("pop_edge").path, [me, e_])
         want = Expr.atom(("call", "bitxor", G, Expr.atom(("call", "shl", one, Expr.leaf("$ix", "e")))))
-        ok = isinstance(r, Struct) and scalar_of(r.fields["id"], "id") == want and scalar_of(r.fields["num_edges"], "n") == Expr.symbol("E")
-        ctx.ob("C14-h", "pop_edge(g,e).id == g.id XOR (1<<e), extent unchanged", ok, "preprocessing::TropicalSubGraphId::pop_edge", "pop-edge-xor")
+        ok = isinstance(r, Struct) and scalar_of(r.fields[MF], "id") == want and scalar_of(r.fields[EF], "n") == Expr.symbol("E")
+        ctx.ob("C14-h", "pop_edge(g,e).id == g.id XOR (1<<e), extent unchanged", ok, idr["pop_edge"].path, "pop-edge-xor")
         r = Interp(f).run_fn(meth("has_edge").path, [me, i_])
         bit = "%s Ne 0" % Expr.atom(("call", "bitand", G, Expr.atom(("call", "shl", one, Expr.leaf("$ix", "i"))))).key()
         ctx.ob("C14-h", "has_edge(g,i) ⇔ g.id & (1<<i) ≠ 0", isinstance(r, Cond) and r.key() == bit, "preprocessing::TropicalSubGraphId::has_edge", "has-edge-bit",
@@ -1126,20 +1146,21 @@ def run_c14h(ctx):
                "preprocessing::TropicalSubGraphId::has_one_edge", "one-edge-popcount")
         r = Interp(f).run_fn(meth("new").path, [num_size("E")])
         wantn = Expr.atom(("call", "shl", one, Expr.symbol("E"))) - one
-        ctx.ob("C14-h", "new(E).id == (1<<E) − 1 (E set bits)", isinstance(r, Struct) and scalar_of(r.fields["id"], "id") == wantn
-               and scalar_of(r.fields["num_edges"], "n") == Expr.symbol("E"), "preprocessing::TropicalSubGraphId::new", "full-id")
+        ctx.ob("C14-h", "new(E).id == (1<<E) − 1 (E set bits)", isinstance(r, Struct) and scalar_of(r.fields[MF], "id") == wantn
+               and scalar_of(r.fields[EF], "n") == Expr.symbol("E"), idr["new"].path, "full-id")
         r = Interp(f).run_fn(meth("contains_edges").path, [me])
         bitq = "%s Ne 0" % Expr.atom(("call", "bitand", G, Expr.atom(("call", "shl", one, Expr.leaf("$ix", "§"))))).key()
         ok = isinstance(r, Arr) and r.classes == ("{§∈E | %s}" % bitq,) and scalar_of(r.at("k"), "elem") == Expr.leaf("$ix", "k")
         ctx.ob("C14-h", "contains_edges(g) = ascending {i < E : has_edge(g,i)}", ok, "preprocessing::TropicalSubGraphId::contains_edges", "contains-edges-set",
                detail="class %s" % (r.classes if isinstance(r, Arr) else r,))
         # the full id is built on the number of edges of the topology
-        fulls = [x for x in f.mir.values() if (f.fns.get(x.path) or {}).get("name") == "get_full_subgraph_id"]
-        if len(fulls) == 1:
+        if "full_id" in gr:
             tg = Struct("TropicalGraph", {"topology": Arr(("E",), lambda e: Opaque("edge"), name="topology")})
-            r = Interp(f).run_fn(fulls[0].path, [tg])
-            ctx.ob("C14-h", "the sector loop starts from new(len(topology))", isinstance(r, Struct) and scalar_of(r.fields["id"], "id") == wantn, fulls[0].path,
+            r = Interp(f).run_fn(gr["full_id"].path, [tg])
+            ctx.ob("C14-h", "the sector loop starts from new(len(topology))", isinstance(r, Struct) and scalar_of(r.fields[MF], "id") == wantn, gr["full_id"].path,
                    "full-id-of-topology")
+        else:
+            ctx.lost("C14-h", "full-id constructor of the graph")
     guarded_clause(ctx, "C14-h", "preprocessing::TropicalSubGraphId", "bit-mask-definitions", body)
 
 
@@ -1201,7 +1222,7 @@ class SectorWorld:
                 pass
             for case in (True, False):
                 snap = snapshot(env)
-                I.models["has_one_edge"] = (lambda I_, c, a, _c=case: Cond("const", _c))
+                I.models[one_edge_path] = (lambda I_, c, a, _c=case: Cond("const", _c))
                 I.in_transfer = True
                 I.breaks = []
                 sites0 = sites[0]
@@ -1219,7 +1240,7 @@ class SectorWorld:
                 post = {name: env.get(vid) for (vid, name, ty) in muts}
                 world_self.transfers[case] = {"post": post, "always_breaks": brk, "breaks": [b[0] for b in I.breaks], "reads": sites[0] - sites0, "error": err}
                 restore(env, snap)
-            del I.models["has_one_edge"]
+            I.models[one_edge_path] = default_one_edge
 
         def read_hook(I, c, a):
             sites[0] += 1
@@ -1233,6 +1254,9 @@ class SectorWorld:
             return Tup([Num(Expr.zero(), ent="scan(%s)" % k), world.GraphIdVal("pop(%s,«scan(%s)»)" % (k, k))])
 
         hooks = {read.path: read_hook, scan.path: scan_hook}
+        hooks.update(role_hooks(ctx))
+        one_edge_path = idroles.id_roles(ctx)["has_one_edge"].path
+        default_one_edge = hooks[one_edge_path]
         for key, b in f.mir.items():
             fi = f.fns.get(b.path) or {}
             if (f.ty(fi.get("impl_self") or "") or {}).get("path") == rd["adt"] and b is not read and b is not rd["ctor"]:
@@ -1441,19 +1465,15 @@ def graph_hooks(ctx, seen):
 
     def contains_hook(I, c, a):
         g = a[0]
-        if isinstance(g, Struct) and "id" in g.fields and isinstance(g.fields["id"], Num) and g.fields["id"].ent is not None:
-            return edges_of(g.fields["id"].ent)
+        mf = idroles.id_roles(ctx).get("mask_field", "id")
+        if isinstance(g, Struct) and mf in g.fields and isinstance(g.fields[mf], Num) and g.fields[mf].ent is not None:
+            return edges_of(g.fields[mf].ent)
+        if isinstance(g, world.GraphIdVal):
+            return Arr(("edges(%s)" % g.key_,), lambda k: Num(Expr.leaf("$ix", k), ent=k), name="edges(%s)" % g.key_)
         return NotImplemented
-    hooks = {}
-    f = ctx.facts
-    for key, b in f.mir.items():
-        nm = (f.fns.get(b.path) or {}).get("name")
-        if nm == "get_loop_number":
-            hooks[b.path] = loops_hook
-        elif nm == "is_mass_momentum_spanning":
-            hooks[b.path] = span_hook
-        elif nm == "contains_edges":
-            hooks[b.path] = contains_hook
+    gr = idroles.graph_roles(ctx)
+    idr = idroles.id_roles(ctx)
+    hooks = {gr["loopnum"].path: loops_hook, gr["spanning"].path: span_hook, idr["contains_edges"].path: contains_hook}
     return hooks
 
 
@@ -1587,10 +1607,13 @@ def run_c03_flags(ctx, RID="C03-e"):
     ctx.rule(RID, "spanning(S) = [#massive edges in S == #massive edges of the graph] ∧ ∃ component c of S: ∀ external v: ∃ edge i of c touching v "
                       "(connected-components routine abstracted, its correctness not decided)")
     f = ctx.facts
-    sp_fns = [b for b in f.mir.values() if (f.fns.get(b.path) or {}).get("name") == "is_mass_momentum_spanning"]
-    if len(sp_fns) != 1:
-        return ctx.lost(RID, "the spanning routine")
-    fn = sp_fns[0].path
+    try:
+        gr = idroles.graph_roles(ctx)
+        if "components" not in gr:
+            raise RoleLost("components routine (callee of the spanning routine returning subgraph ids)")
+    except RoleLost as e:
+        return ctx.lost(RID, str(e))
+    fn = gr["spanning"].path
     ctx.fn(fn)
 
     def body():
@@ -1598,10 +1621,8 @@ def run_c03_flags(ctx, RID="C03-e"):
             e = a[1]
             cls = e.classes[0] if isinstance(e, Arr) else "?"
             return Arr(("comps(%s)" % cls,), lambda j: world.GraphIdVal("comp(«%s»)" % j), name="components")
-        hooks = {}
-        for key, b in f.mir.items():
-            if (f.fns.get(b.path) or {}).get("name") == "get_connected_components":
-                hooks[b.path] = comps_hook
+        hooks = dict(role_hooks(ctx))
+        hooks[gr["components"].path] = comps_hook
         I = Interp(f, models=hooks)
         topo = Arr(("E",), lambda e: Struct("TropicalEdge", {
             "edge_id": Num(Expr.leaf("$ix", e)), "left": Num(Expr.leaf("vl", e)), "right": Num(Expr.leaf("vr", e)),
@@ -1649,10 +1670,13 @@ def run_c03_loops(ctx, RID="C03-f"):
     ctx.rule(RID, "loop number of an edge set S: 0 for the empty set, else Σ_{component c of S} (1 + |edges(c)| − |{endpoints of the edges of c}|) "
                   "(Euler's formula per component; connected-components routine abstracted, its correctness not decided)")
     f = ctx.facts
-    ln = [b for b in f.mir.values() if (f.fns.get(b.path) or {}).get("name") == "get_loop_number"]
-    if len(ln) != 1:
-        return ctx.lost(RID, "the loop-number routine")
-    fn = ln[0].path
+    try:
+        gr = idroles.graph_roles(ctx)
+        if "components" not in gr:
+            raise RoleLost("components routine")
+    except RoleLost as e:
+        return ctx.lost(RID, str(e))
+    fn = gr["loopnum"].path
     ctx.fn(fn)
 
     def body():
@@ -1660,10 +1684,8 @@ def run_c03_loops(ctx, RID="C03-f"):
             e = a[1]
             cls = e.classes[0] if isinstance(e, Arr) else "?"
             return Arr(("comps(%s)" % cls,), lambda j: world.GraphIdVal("comp(«%s»)" % j), name="components")
-        hooks = {}
-        for key, b in f.mir.items():
-            if (f.fns.get(b.path) or {}).get("name") == "get_connected_components":
-                hooks[b.path] = comps_hook
+        hooks = dict(role_hooks(ctx))
+        hooks[gr["components"].path] = comps_hook
         I = Interp(f, models=hooks)
         topo = Arr(("E",), lambda e: Struct("TropicalEdge", {
             "edge_id": Num(Expr.leaf("$ix", e)), "left": Num(Expr.leaf("vl", e)), "right": Num(Expr.leaf("vr", e)),
@@ -1690,7 +1712,8 @@ class TableWorld:
         f = ctx.facts
         bs, fg, tb, jrec = builder_roles(ctx)
         self.seen = {}
-        hooks = graph_hooks(ctx, self.seen)
+        hooks = dict(role_hooks(ctx))
+        hooks.update(graph_hooks(ctx, self.seen))
 
         def jhook(I, c, a):
             pr = None
@@ -1762,7 +1785,9 @@ def run_c04(ctx):
                 g = a[0]
                 return Num(Expr.atom(("call", "Jrec", g.key_)))
             return NotImplemented
-        I = Interp(f, models={jrec.path: rec_hook})
+        hk = dict(role_hooks(ctx))
+        hk[jrec.path] = rec_hook
+        I = Interp(f, models=hk)
         table = Arr(("2^E",), lambda i: Struct("OptEntry", {
             "j_function": Opt(Cond("key", "memo(%s)" % i), Num(Expr.atom(("call", "Jmemo", str(i))))),
             "generalized_dod": Opt(True, Num(Expr.atom(("call", "omega", i if isinstance(i, str) else str(i))))),
